@@ -112,7 +112,7 @@ def run(ctx):
                     if 'socket-closed-after-StartOk' in i.key or 'other-errors-unchanged' in i.key:
                         r.insts.append(type(i)(r.rid, r._key(i.key.split(':', 1)[1]), i.ok, i.site, i.built, i.expected, i.why))
 
-    with ctx.rule('R05.3', 'every blocking point is disconnect-woken: endpoints owned by I/O-thread state, never cloned; state taken by value', floor=14) as r:
+    with ctx.rule('R05.3', 'every blocking point is disconnect-woken: endpoints owned by I/O-thread state, never cloned; state taken by value', floor=14, floor_notls=13) as r:
         mk = []
         for p, fn in sorted(ctx.fns.items()):
             if 'hir' not in fn or fn['dk'] == 'Closure':
